@@ -86,7 +86,10 @@ CHECKS['C19'] = dict(
          'conclusion is re-checked on the real TocRenderer.toc each run; titles with markup and non-outline lists are '
          'explored on the implementation against the generator outline. Plain text: for titles of raw text, emphasis, '
          'strong, strikethrough, inline code and escapes free of <, >, & the tag-stripping regex removes exactly the tags '
-         '(C19_plain_text_entry, C19_plain_text_formatted).',
+         '(C19_plain_text_entry, C19_plain_text_formatted). END TO END (Props/C19_EndToEnd.lean): the pieces composed into '
+         'the property as stated - for a text whose parsed headings are such titles and whose qualifying headings form an '
+         'outline, _headings is exactly the qualifying headings in document order and toc is one list nested as their '
+         'outline (C19_document_headings, C19_text_toc_current); re-checked on the real TocRenderer (c19.theorem.document).',
     note='Trusted: Lean kernel (axioms propext/Classical.choice/Quot.sound at most); correspondence harness; filters are '
          'substring predicates. A document without qualifying headings is outside the claim.',
     technique='Lean 4 proof (structural induction: collection = filtered pre-order of headings; mutual induction over the outline forest for the list parse) + correspondence of _headings + hypothesis evaluation with conclusion checked on the implementation + outline-oracle exploration',
@@ -118,8 +121,13 @@ CHECKS['C10'] = dict(
          'fragment: MarkdownRenderer(max_line_length=L).render(Document(text)) is the greedy re-fill of the same words, a '
          'line longer than L is one word, the HTML is the same up to the position of soft breaks, and reflowing again '
          'changes nothing - the conclusion is re-checked on the real renderer on random fragment documents each run. '
-         'Paragraphs inside containers, hard breaks, inline markup and the non-rebreaking of code/HTML/table/ATX blocks '
-         'are explored on the implementation over generated nested prose for L in 1..120.',
+         'LIST ITEMS as containers (Props/C10_Lists.lean): the same four clauses for plain-word paragraphs inside bullet '
+         'and ordered lists in normal form, nested to any depth, at top level and inside k block quotes - a paragraph '
+         'behind item prefixes of total width w is filled with the budget max(L - 2k - w, 1), every line is prefix + a '
+         'line of the fill loop, a body over its budget is one word, the re-filled text parses to the same lists and '
+         'words, reflowing again changes nothing (also where budgets clamp at 1); re-checked on the real renderer '
+         '(c10.theorem.lists). Hard breaks, inline markup, quotes inside items and the non-rebreaking of '
+         'code/HTML/table/ATX blocks are explored on the implementation over generated nested prose for L in 1..120.',
     note='Trusted: Lean kernel (axioms propext/Classical.choice/Quot.sound at most); correspondence harness; the '
          'generated prose avoids words that look like block markers at line start (the recorded finding named by the '
          'property).',
@@ -152,8 +160,13 @@ CHECKS['C07'] = dict(
          'phase leaves in its state exactly the definition entries of the parse buffer in pre-order, inside block quotes '
          'and list items alike (C07_table_is_document_order, C07_first_in_document_order, C07_position_independent; '
          'simultaneous induction over the tokenizer functions); that conclusion is re-checked on the real block phase '
-         'each run (c07.order). The implementation is explored with generated placements (definitions alone and in runs, '
-         'before/after use, at every nesting level).',
+         'each run (c07.order). A REFERENCE IN THE TEXT REACHES THAT LOOKUP (Props/C07_Resolve.lean): for shortcut, '
+         'collapsed and full references, links and images, written in otherwise plain text, the inline parser calls the '
+         'lookup with normalize_label(label), yields exactly one Link / Image token with the looked-up destination and '
+         'title, and no token at all - the text stays literal - when the lookup fails; the document-level corollary '
+         '(definition line, blank line, paragraph with the reference renders the link exactly when the labels are equal '
+         'after normalisation) is re-checked on the real code each run (c07.resolve). The implementation is explored with '
+         'generated placements (definitions alone and in runs, before/after use, at every nesting level).',
     note='Trusted: Lean kernel (axioms propext/Classical.choice/Quot.sound at most); str.casefold as the Unicode case '
          'fold; correspondence harness. Definitions are placed at block boundaries.',
     technique='Lean 4 proof (fold invariant: table lookup = first matching definition; simultaneous induction over the tokenizer for the registration order) + correspondence of normalize_label and Document.footnotes + conclusion checked on the real block phase + placement exploration with the generator table as oracle',
@@ -191,8 +204,12 @@ CHECKS['C01'] = dict(
          'on empty containers, no TypeError; each renderer model raises on a tree exactly outside a decidable shape '
          'predicate that every parsed document satisfies; with the LaTeX renderer a string or the documented \\verb '
          'refusal), the renderer models being tied to the real renderers byte for byte (md.render, jira.render, '
-         'xwiki.render units). Pygments and wall-clock time are not modelled: explored on the implementation under all '
-         'configurations.',
+         'xwiki.render units). THE HTML FAMILY (Props/C01_HtmlFamily.lean): every document parsed under the token lists '
+         'of HtmlRenderer (with and without process_html_tokens), TocRenderer, GithubWikiRenderer or MathJaxRenderer '
+         'holds only tokens that renderer has a render method for, table alignments None/0/1 and well-formed table '
+         'headers, so the renderer returns the model\'s string (for PygmentsRenderer: exactly when there is no code '
+         'block, Pygments itself being outside the model). Pygments and wall-clock time are not modelled: explored on '
+         'the implementation under all configurations.',
     note='Trusted: Lean kernel (axioms propext/Classical.choice/Quot.sound at most); correspondence harness; SIGALRM '
          'budget; Pygments exercised, not modelled; recursion limit represented by the gas bound.',
     technique='Lean 4 proof (simultaneous induction over the gas of the mutually recursive tokenizer; weighted-length measure for termination; shape invariants of parsed trees for renderer totality) + correspondence (parser and renderer models) + exploration of configurations on the implementation',
@@ -289,9 +306,13 @@ CHECKS['C03'] = dict(
          'holds with lists among earlier siblings): bullet and ordered lists, padding 1-4, tight or loose, any number of '
          'items and of blocks per item, nested lists and quotes to any depth - Document(write(tree)) is the tree (List / '
          'ListItem tokens with loose, start, markers, offsets, line numbers) and the HTML is byte for byte the HTML '
-         'written from the tree (C03_lists_document_partial, C03_lists_html_partial). The hypothesis is executable: each run generates '
+         'written from the tree (C03_lists_document_partial, C03_lists_html_partial). FENCED CODE BLOCKS AND SETEXT '
+         'HEADINGS (Props/C03_Code.lean): fences of either character at indentation 0-3 with any info string and any '
+         'content that does not close them, at top level, in quotes and in list items; setext headings at top level and '
+         'in list items (C03_code_document_partial, C03_code_html_partial) - the proof of the fence case found the '
+         'closing-fence defect repaired by 99c8328. The hypothesis is executable: each run generates '
          'random forests, evaluates it and the concluded HTML in Lean, and checks the REAL renderer on the written text. '
-         'Everything outside the fragment (setext headings, code blocks, tables, HTML blocks, link definitions, all '
+         'Everything outside the fragment (indented code, tables, HTML blocks, link definitions, all '
          'inline constructs other than text and soft breaks, lazy continuation, interruption, list marker indentation, '
          'items beginning with a blank line) is NOT proved: it is '
          'explored with the tree generator (all block and inline kinds, depth <= 4, free spellings, adjacency without '
